@@ -18,6 +18,12 @@ def code_script(rng, names, ctx):
     if r < 0.6: return []
     if r < 0.75:
         ln = rng.choice([245, 246, 247, 248, 249, 250, 251, 252, 253, 254, 255, 256, 300, 65530, 65535, 65536, 70000])
+        if rng.random() < 0.5:
+            # total encoded script length exactly at a CompactSize boundary (push overhead: 3 bytes up to 65535, 5 beyond)
+            total = rng.choice([252, 253, 254, 65534, 65535, 65536, 65537])
+            body = total - 2                                   # trailing OP_DROP OP_1
+            ln = body - (2 if body - 2 <= 255 else 3 if body - 3 <= 65535 else 5)
+            return [G.rbytes(rng, ln).hex(), 'OP_DROP', 'OP_1']
         return [G.rbytes(rng, ln).hex()]
     toks = [t for t in G.script_tokens(rng, names, 10, big=False) if t != 'OP_CODESEPARATOR']
     return toks
@@ -44,6 +50,20 @@ def cases(ctx):
                 if ht & 0x1f == 3: ctx.count('single-' + ('in' if i < len(tx.outputs) else 'out-of-range'))
                 yield Case(f'dig_legacy {line} {i} {toks_str(code)} {ht}', 'ms',
                            nontrivial=nontrivial(tx, i, ht, [code]), tag='legacy')
+    # the same object after use and in-place change through public attributes (stale caches / leaked state)
+    for _ in range(ctx.n(50, 2500)):
+        tx = G.gen_tx(rng, names, kind=rng.choice(['legacy', 'segwit']), max_in=4, max_out=4, min_out=1, big=False)
+        muts = G.random_mutations(rng, tx, names)
+        line0 = tx_to_line(tx)
+        G.apply_mutations(tx, muts)
+        line1 = tx_to_line(tx)
+        i = rng.randrange(len(tx.inputs)); ht = rng.choice(TYPES)
+        if ht & 0x1f == 3 and i >= len(tx.outputs): ht = 1
+        code = code_script(rng, names, ctx)
+        rest = f'{i} {toks_str(code)} {ht}'
+        ctx.count('after-mutation')
+        yield Case(f'dig_legacy_after {line0} {G.muts_line(muts)} {rest}', 'ms', nontrivial=True, tag='after-mutation',
+                   model=lambda ans, l=line1, r=rest: (f'm:dig_legacy {l} {r}', ans), spec=lambda ans, l=line1, r=rest: (f's:dig_legacy {l} {r}', ans))
     # malformed stream: a null-hash input next to the signed one (the code raises), index out of range
     tx = G.gen_tx(rng, names, kind='coinbase', max_in=3, max_out=2, big=False)
     yield Case(f'dig_legacy {tx_to_line(tx)} 0 {toks_str(["OP_1"])} 1', 'm', nontrivial=True, tag='null-input', domain=False)
@@ -53,7 +73,10 @@ def cases(ctx):
 def impl(op, a, ctx):
     from bitcoinutils.script import Script
     F = Fields(a)
-    tx = line_to_tx(F); i = F.nat(); code = F.toks(); ht = F.nat(); F.done()
+    tx = line_to_tx(F)
+    if op == 'dig_legacy_after':
+        muts = G.parse_muts(F); G.exercise(tx); G.apply_mutations(tx, muts)
+    i = F.nat(); code = F.toks(); ht = F.nat(); F.done()
     return 'ok ' + hx(tx.get_transaction_digest(i, Script(code), ht))
 
 
